@@ -136,6 +136,73 @@ fn run_v<V: Fv>(ctx: &Ctx, rep: &mut Report) {
     rep.merge(r);
 }
 
+/// The reserved field value (-2^(w-1)) inside an otherwise VALID NTRU basis: g' = g + c x^j f
+/// (with G' = G + c x^j F) or f' = f + c x^j g (with F' = F + c x^j G) is again a short
+/// solution of the NTRU equation; (c, j) are searched so that the minimum of the changed
+/// polynomial is exactly the reserved value while everything else stays in range. Such a
+/// string passes every consistency check a decoder may run on the decoded basis, so only the
+/// field-level rule rejects it.
+fn reserved_in_valid_basis<V: Fv>(ctx: &Ctx, nkeys: usize, rep: &mut Report) {
+    let (keys, _bad) = pool::keys::<V>(ctx.seed, "c06-rsv", nkeys);
+    let (w, wf) = spec::sk_widths(V::N);
+    let rsv = -(1i64 << (w - 1));
+    let lim = (1i64 << (w - 1)) - 1;
+    let limf = (1i64 << (wf - 1)) - 1;
+    let r = par_for(keys.len(), ncpu(), |ki, rep| {
+        let k = &keys[ki];
+        let b0 = V::basis(&k.sk);
+        let g: Vec<i64> = b0[0].iter().map(|&x| x as i64).collect();
+        let f: Vec<i64> = b0[1].iter().map(|&x| -(x as i64)).collect();
+        let cg: Vec<i64> = b0[2].iter().map(|&x| x as i64).collect();
+        let cf: Vec<i64> = b0[3].iter().map(|&x| -(x as i64)).collect();
+        let mut quota = [0usize; 2];
+        'search: for c in [1i64, -1, 2, -2, 3, -3] {
+            for j in 0..V::N {
+                for which in 0..2usize {
+                    if quota[which] >= 3 {
+                        continue;
+                    }
+                    // which = 0: change g (and G); which = 1: change f (and F)
+                    let (small, other, big, obig) = if which == 0 { (&g, &f, &cg, &cf) } else { (&f, &g, &cf, &cg) };
+                    let so = super::c05::shift(other, j);
+                    let s2: Vec<i64> = (0..V::N).map(|i| small[i] + c * so[i]).collect();
+                    if *s2.iter().min().unwrap() != rsv || *s2.iter().max().unwrap() > lim {
+                        continue;
+                    }
+                    let sb = super::c05::shift(obig, j);
+                    let b2: Vec<i64> = (0..V::N).map(|i| big[i] + c * sb[i]).collect();
+                    if b2.iter().any(|x| x.abs() > limf.min(127)) {
+                        continue;
+                    }
+                    let (f2, g2, cf2, cg2) = if which == 0 { (f.clone(), s2, cf.clone(), b2) } else { (s2, g.clone(), b2, cg.clone()) };
+                    // harness-side sanity: still an NTRU completion
+                    let fg = spec::negamul_z(&f2, &cg2);
+                    let gf = spec::negamul_z(&g2, &cf2);
+                    if !(0..V::N).all(|i| fg[i] - gf[i] == if i == 0 { spec::Q as i128 } else { 0 }) {
+                        rep.inconclusive("reserved-in-valid-basis construction is not an NTRU completion (harness error)".into());
+                        continue;
+                    }
+                    let bytes = spec::sk_encode(&f2, &g2, &cf2);
+                    if spec::sk_decode(&bytes, V::N).is_some() {
+                        rep.inconclusive("reserved-in-valid-basis construction does not contain the reserved pattern (harness error)".into());
+                        continue;
+                    }
+                    check_one::<V>(Ty::Sk, if which == 0 { "reserved-in-valid-basis-g" } else { "reserved-in-valid-basis-f" }, &bytes, rep);
+                    rep.count("reserved_in_valid_basis", 1);
+                    rep.count(&format!("reserved_in_valid_basis_{}", V::NAME), 1);
+                    rep.count(if which == 0 { "reserved_in_valid_basis_g" } else { "reserved_in_valid_basis_f" }, 1);
+                    rep.nontrivial(format!("rsv|{}|{}|{}|{}|{}", V::NAME, hex(&k.seed[..6]), which, c, j).as_bytes());
+                    quota[which] += 1;
+                    if quota[0] >= 3 && quota[1] >= 3 {
+                        break 'search;
+                    }
+                }
+            }
+        }
+    });
+    rep.merge(r);
+}
+
 /// each variant's valid encodings offered to the other variant's decoders
 fn cross_variant(ctx: &Ctx, rep: &mut Report) {
     let mut rng = rng_for(ctx.seed, "c06-cross");
@@ -155,6 +222,10 @@ pub fn canonical(ctx: &Ctx, rep: &mut Report) {
     run_v::<F512>(ctx, rep);
     run_v::<F1024>(ctx, rep);
     cross_variant(ctx, rep);
+    reserved_in_valid_basis::<F512>(ctx, ctx.sz(12, 200), rep);
+    reserved_in_valid_basis::<F1024>(ctx, ctx.sz(3, 16), rep);
+    rep.require("reserved_in_valid_basis_g", 2);
+    rep.require("reserved_in_valid_basis_f", 2);
     for k in ["pk_accepted", "sk_accepted", "sig_accepted", "rejected_wrong-length", "rejected_wrong-header", "rejected_pk-field-ge-q", "rejected_sk-reserved-pattern"] {
         rep.require(k, 10);
     }
